@@ -151,7 +151,7 @@ fn c05_o1d_envelope_tid() {
     kani::assume(len <= 5);
     let ro: Option<i32> = kani::any();
     let code: i32 = kani::any();
-    let ip: Option<[u8; 6]> = kani::any();
+    let ip: Option<[u8; 6]> = if kani::any() { Some(kani::env()) } else { None };
     let msg = internal::DHTMessage {
         transaction_id: tid_vec(len, b),
         version: None,
